@@ -373,7 +373,7 @@ def main():
     }
     write_evidence(PROP, tr, base_seed, cov, time.time() - t0, len(violations), assumptions=[
         'the Lean term semantics is sequential (completion inline in start); in the E0-pool cases the real completion happens on worker threads and only the observable outcome (signal, consumer result, count, ledger) is compared with it; exhaustive interleavings are covered by the E1 tier for the shared-state adaptors and when_all only',
-        'drop_operation_state: the release of the predecessor operation state inside the completion call is not a separate notion in the Lean model (the terminal receiver releases everything); it is checked on the implementation side by the payload ledger and, in the thorough tier, ASan',
+        'every stage of an E0 pipeline is type-erased (unique_any_sender passes values by value), so lifetime errors of references into a destroyed predecessor operation state (drop_operation_state) cannot show in E0; the destruction itself and touch-after-destruction of operation states is modelled (freed/uaf) and proved, and checked on the implementation by ASan + the payload ledger',
         'sync_wait of a stopped pipeline and start_detached of a failing pipeline terminate the process by design; modelled as termination, not as a violation',
         'non-stdexec build: sends_done is false for every pika adaptor and for any_sender, so when_all_vector / split_tuple over such senders reach PIKA_UNREACHABLE on stopped; the harness puts a glue sender with sends_done=true below them (see notes/C03.md)',
     ])
